@@ -18,3 +18,11 @@ def check(run, views, tier):
         n = rr.r_readexact(run, F)
         run.floor("R-READEXACT", n, 8 if rr.async_on(F) else 4, "calls on the readers' source")
         rr.r_stop_onlyexit(run, F)
+        # the clients hand the whole response stream to the parser (the clause of R-HTTPSHAPE that concerns the payload)
+        from ..engine import Only
+        from . import c11
+        view = Only(run, "|parse-source")
+        if "async-client" in F.features:
+            c11.check_send(view, F, c11.ASYNC, "async")
+        if "client" in F.features:
+            c11.check_send(view, F, c11.BLOCK, "blocking")
